@@ -126,7 +126,22 @@ fn check_program(
     let mut found: Vec<Found> = vec![];
     let mut proved_once = false;
     let have = |c: &Clause, found: &Vec<Found>| found.iter().any(|f| f.clause == *c);
-    for v in vectors(n_in) {
+    // programs with bit decompositions additionally get 5 (fits 3 bits, not 2) and 9 (fits
+    // neither 2 nor 3 bits) on every input position, one position at a time: a decomposition must be
+    // judged at its own width even when the same value was decomposed at another width before
+    let mut vecs = vectors(n_in);
+    if n_in > 0 && n_in <= 2 && p.calls.iter().any(|c| matches!(c, vpe1::prog::Call::Bits(..))) {
+        for extra in [5u64, 9] {
+            for pos in 0..n_in {
+                for base in [F::ZERO, F::ONE] {
+                    let mut v = vec![base; n_in];
+                    v[pos] = F::from_u64(extra);
+                    vecs.push(v);
+                }
+            }
+        }
+    }
+    for v in vecs {
         let (pubs, privs) = split_inputs(n_pub, &v);
         let re = ref_eval::<BabyBear, F>(p, cs, &pubs, &privs);
         if re.undefined {
